@@ -169,6 +169,13 @@ def run(ck: Check):
         nl = rng.choice([0, 0, 1, 2])
         cases.append({"seed": rng.randrange(1 << 30), "brokers": rng.choice([1, 2, 3]), "partitions": n,
                       "keys": ks, "leaderless": rng.sample(range(n), min(nl, n - 1))})
+        if i % 3 == 0:
+            # producer options that must not matter for the choice: idempotence (a record for a leaderless partition
+            # then waits for the election instead of expiring; the driver gives up on it after 0.3 s)
+            cases[-1]["idempotent"] = True
+            cases[-1]["wait"] = 0.3
+            if not cases[-1]["leaderless"] and n > 1:
+                cases[-1]["leaderless"] = [rng.randrange(n)]
         if i % 2 == 1:
             # partitions whose leader is alive but whose Metadata entry carries a partition-level error (a follower or a
             # listener is down): they are partitions of the topic like the others
@@ -197,7 +204,17 @@ def run(ck: Check):
             if key is not None:
                 want = java_partition(bytes(key), c["partitions"])
                 if want in c["leaderless"]:
-                    continue        # the partition has no leader: the record cannot be delivered (not C17's business)
+                    # the partition has no leader: the record cannot be delivered (not C17's business) - but it must not
+                    # turn up in another partition either
+                    if land is not None and land != want:
+                        nb += 1
+                        if nb <= 5:
+                            ck.violation(f"keyed record whose partition {want} has no leader landed in partition {land}: the "
+                                         f"choice depends on availability",
+                                         {"kind": "e2e", "case": {k: v for k, v in c.items() if k != "keys"}, "key": key,
+                                          "landed": land, "reported": rep, "java": want},
+                                         signature=f"e2e-leaderless:{bytes(key).hex()[:30]}:{c['partitions']}")
+                    continue
                 if land != want or rep != want:
                     nb += 1
                     if nb <= 5:
